@@ -270,6 +270,9 @@ class Interp:
                     self.call(self.lookup(st.value), st.value, env)
                 elif isinstance(st.value, ast.Call) and call_name(st.value) in self.effects:
                     self.eval(st.value, env)
+                elif self.tensors and isinstance(st.value, ast.Call) and isinstance(st.value.func, ast.Attribute) and st.value.func.attr == "append" \
+                        and isinstance(st.value.func.value, ast.Name) and isinstance(env.get(st.value.func.value.id), list) and len(st.value.args) == 1:
+                    env[st.value.func.value.id].append(self.eval(st.value.args[0], env))  # a Python list of tensors (`masks.append(m)`)
                 elif self.tensors and isinstance(st.value, ast.Call) and isinstance(st.value.func, ast.Attribute) \
                         and st.value.func.attr.endswith("_") and not st.value.func.attr.endswith("__") \
                         and isinstance(st.value.func.value, (ast.Name, ast.Attribute)) and u(st.value.func.value) in env:
